@@ -50,7 +50,7 @@ impl Check for InitCheck {
         "C14/initialisation".into()
     }
     fn classes(&self) -> &'static [&'static str] {
-        &["size>=2 and dim>=2", "size 0", "dim 0", "functional helper", "p in {0,1}"]
+        &["size>=2 and dim>=2", "size 0", "dim 0", "functional helper", "p in {0,1}", "the generator first replays a script of edge-value words (derived from the seed)"]
     }
     fn oracle(&self, c: &InitCase) -> Outcome {
         let mut cl = 0;
@@ -60,6 +60,14 @@ impl Check for InitCheck {
 }
 
 fn init_oracle(c: &InitCase, cl: &mut u64) -> Result<(), Failure> {
+    let seed_of = match c {
+        InitCase::Spread { seed, .. } | InitCase::Permutation { seed, .. } | InitCase::Bitstring { seed, .. } => Some(*seed),
+        #[allow(unreachable_patterns)]
+        _ => None,
+    };
+    if seed_of.map_or(false, |s| !crate::fixtures::script_of(s).is_empty()) {
+        *cl |= 32;
+    }
     match c {
         InitCase::Spread { size, domain, seed, functional } => {
             let dom: Vec<Range<f64>> = domain.iter().map(|(a, b)| a.f()..b.f()).collect();
@@ -76,14 +84,14 @@ fn init_oracle(c: &InitCase, cl: &mut u64) -> Result<(), Failure> {
             let at = format!("RandomSpread({size}) on domain {dom:?} (seed {seed})");
             let sols: Vec<Vec<f64>> = if *functional {
                 *cl |= 8;
-                let mut rng = Random::new(*seed);
+                let mut rng = crate::fixtures::random_for(*seed);
                 match catch(|| inf::random_spread(&dom, *size as usize, &mut rng)) {
                     Ok(v) => v,
                     Err(p) => fail!("C14 random_spread panics", "{at}: {p}"),
                 }
             } else {
                 let problem = RealP::with_domain(dom.clone(), RealKind::Sphere);
-                let mut st = state_with::<RealP>(vec![vec![Individual::new_unevaluated(vec![42.0])]], *seed);
+                let mut st = crate::fixtures::state_with_scripted::<RealP>(vec![vec![Individual::new_unevaluated(vec![42.0])]], *seed);
                 let comp = crate::fixtures::maybe_nested(RandomSpread::new::<RealP, f64>(*size), *seed);
                 match catch(|| comp.execute(&problem, &mut st)) {
                     Ok(Ok(())) => {}
@@ -115,14 +123,14 @@ fn init_oracle(c: &InitCase, cl: &mut u64) -> Result<(), Failure> {
             let at = format!("RandomPermutation({size}) dim {dim} (seed {seed})");
             let sols: Vec<Vec<usize>> = if *functional {
                 *cl |= 8;
-                let mut rng = Random::new(*seed);
+                let mut rng = crate::fixtures::random_for(*seed);
                 match catch(|| inf::random_permutation(*dim, *size as usize, &mut rng)) {
                     Ok(v) => v,
                     Err(p) => fail!("C14 random_permutation panics", "{at}: {p}"),
                 }
             } else {
                 let problem = TspP::generated(*dim, 0, 3);
-                let mut st = state_with::<TspP>(vec![], *seed);
+                let mut st = crate::fixtures::state_with_scripted::<TspP>(vec![], *seed);
                 let comp = crate::fixtures::maybe_nested(RandomPermutation::new::<TspP>(*size), *seed);
                 match catch(|| comp.execute(&problem, &mut st)) {
                     Ok(Ok(())) => {}
@@ -152,14 +160,14 @@ fn init_oracle(c: &InitCase, cl: &mut u64) -> Result<(), Failure> {
             let at = format!("RandomBitstring({size}, p = {p}) dim {dim} (seed {seed})");
             let sols: Vec<Vec<bool>> = if *functional {
                 *cl |= 8;
-                let mut rng = Random::new(*seed);
+                let mut rng = crate::fixtures::random_for(*seed);
                 match catch(|| inf::random_bitstring(*dim, p, *size as usize, &mut rng)) {
                     Ok(v) => v,
                     Err(e) => fail!("C14 random_bitstring panics", "{at}: {e}"),
                 }
             } else {
                 let problem = BitsP::new(*dim);
-                let mut st = state_with::<BitsP>(vec![], *seed);
+                let mut st = crate::fixtures::state_with_scripted::<BitsP>(vec![], *seed);
                 let comp = crate::fixtures::maybe_nested(if p == 0.5 { RandomBitstring::new_uniform::<BitsP>(*size) } else { RandomBitstring::new::<BitsP>(*size, p) }, *seed);
                 match catch(|| comp.execute(&problem, &mut st)) {
                     Ok(Ok(())) => {}
@@ -219,45 +227,7 @@ pub struct BoundCase {
     pub script: Vec<u64>,
 }
 
-thread_local! {
-    static SCRIPT: std::cell::RefCell<Vec<u64>> = const { std::cell::RefCell::new(Vec::new()) };
-}
-
-/// A generator backend that replays the thread's script and then behaves like ChaCha12.
-pub struct ScriptRng {
-    script: Vec<u64>,
-    pos: usize,
-    rest: rand_chacha::ChaCha12Rng,
-}
-impl rand::RngCore for ScriptRng {
-    fn next_u32(&mut self) -> u32 {
-        (self.next_u64() >> 32) as u32
-    }
-    fn next_u64(&mut self) -> u64 {
-        if self.pos < self.script.len() {
-            self.pos += 1;
-            self.script[self.pos - 1]
-        } else {
-            self.rest.next_u64()
-        }
-    }
-    fn fill_bytes(&mut self, dest: &mut [u8]) {
-        for chunk in dest.chunks_mut(8) {
-            let w = self.next_u64().to_le_bytes();
-            chunk.copy_from_slice(&w[..chunk.len()]);
-        }
-    }
-    fn try_fill_bytes(&mut self, dest: &mut [u8]) -> Result<(), rand::Error> {
-        self.fill_bytes(dest);
-        Ok(())
-    }
-}
-impl rand::SeedableRng for ScriptRng {
-    type Seed = [u8; 32];
-    fn from_seed(seed: Self::Seed) -> Self {
-        ScriptRng { script: SCRIPT.with(|s| s.borrow().clone()), pos: 0, rest: rand_chacha::ChaCha12Rng::from_seed(seed) }
-    }
-}
+pub use crate::fixtures::{ScriptRng, SCRIPT};
 
 pub struct BoundCheck;
 
